@@ -102,9 +102,11 @@ class NTPClient(Service, discriminator="ntp-client"):
         if not isinstance(payload, NTPPacket):
             self.sys_log.warning(f"{self.name}: Failed to parse NTP update")
             return False
-        if payload.ntp_reply.ntp_datetime:
+        # only a reply carries a time (a request that reaches a client, e.g. one sent to a host without NTP server, does not)
+        if payload.ntp_reply and payload.ntp_reply.ntp_datetime:
             self.time = payload.ntp_reply.ntp_datetime
             return True
+        return False
 
     def request_time(self) -> None:
         """Send request to ntp_server."""
